@@ -8,6 +8,16 @@ HOOK_COMMITS = subprocess.run(
 
 # id -> (built?, technique, level text, level note, design_ref)
 CHECKS = {
+ "C05": (True,
+   "contract monitor over analyzer executions (catch_unwind + well-formedness oracle on every diagnostic and token range), exhaustive over short sequences of line kinds",
+   "SourceFileAnalyzer::analyze runs on every sequence of up to 3 lines from 22 line kinds over two line numbers (so every duplicate / emptied / untokenizable redefinition shape is present), on random structured files, arbitrary UTF-8 files and (partially typed) generated programs; every diagnostic must map to a range on the line it names, in bounds and on char boundaries, and per-line token ranges must be ordered and non-overlapping; panics are caught per file.",
+   "Native-stack exhaustion through the analyzer is covered by C01's child-process depth grid.",
+   "DESIGN.md §5 C05"),
+ "C06": (True,
+   "differential monitoring of two implementations: analyzer verdict vs observed execution outcome, over generated lines and over programs run along all forced branches",
+   "For straight-line generated lines (45% with typing/syntax mistakes) the analyzer's verdict is compared with an actual run from a fresh state in both directions the property states; for generated programs whose IF conditions test INPUT-controlled variables, analysis-clean programs are executed under all 2^k reply vectors and must never end in SYNTAX / TYPE MISMATCH / UNDEF'D STATEMENT.",
+   "Only the stated implications are checked (never which error or where); known finding C06-KF1 (= C03-KF1) recognised by signature.",
+   "DESIGN.md §5 C06"),
  "C14": (True,
    "metamorphic self-comparison on real interpreters: program vs reload of its own LIST output (listing, token counts, DATA stream, RUN transcript), exhaustive over token adjacencies",
    "Every token spelling next to every other (pairs; triples in the thorough tier), numerals in every spelling, DATA lists of every item form, random token lines and generated programs are entered, listed, reloaded into a fresh interpreter and listed again: the listing must be accepted and identical, per-line token counts and the DATA stream seen by READ must be equal, RUN transcripts equal, and the listing of each entry must tokenize to the entry's tokens.",
